@@ -1777,12 +1777,19 @@ pub fn greatest() -> impl Function {
 
 /// Builds the lower `Function`
 pub fn lower() -> impl Function {
-    PartitionnedMonotonic::univariate(data_type::Text::default(), |x| x.to_lowercase())
+    // lower-casing is not monotone for the byte-wise order on strings ("B" < "a" but "Z" > "a"):
+    // it is exact on finite value sets and spans the whole text type otherwise
+    Pointwise::univariate(data_type::Text::default(), DataType::text(), |x| {
+        x.to_lowercase().into()
+    })
 }
 
 /// Builds the upper `Function`
 pub fn upper() -> impl Function {
-    PartitionnedMonotonic::univariate(data_type::Text::default(), |x| x.to_uppercase())
+    // see `lower`
+    Pointwise::univariate(data_type::Text::default(), DataType::text(), |x| {
+        x.to_uppercase().into()
+    })
 }
 
 /// Builds the char_length `Function`
